@@ -122,6 +122,9 @@ def _log_observer(ev):
 
 def _where(f):
     try:
+        for fr in reversed(f.frames or []):
+            if "/wormhole/" in fr[1] and "site-packages" not in fr[1]:
+                return "%s:%s" % (os.path.basename(fr[1]), fr[0])
         fr = f.frames[-1] if f.frames else None
         if fr:
             return "%s:%s" % (os.path.basename(fr[1]), fr[0])
